@@ -40,6 +40,10 @@ def payload_alphabet(seed: int) -> list[Any]:
         fills = {bytes(n), b"\xff" * n, bytes((i + 1) % 256 for i in range(n)), bytes([0x0C, 0x1A] * 7)[:n], bytes([0x80] + [0] * (n - 1)), bytes([0x7F] + [0xFF] * (n - 1)), seed_bytes(seed, n, 38)}
         if n == 1:
             fills |= {bytes((v,)) for v in (2, 3, 5, 17, 32, 50, 64, 100, 127, 128, 200, 254)}
+        if n == 6:
+            # partially valid structured values (RGBW: white only / colours only; xyY: brightness only) - remote values merge
+            # these into what they already know
+            fills |= {bytes.fromhex("102030c80001"), bytes.fromhex("102030c8000e"), bytes.fromhex("8000800040" + "01"), bytes.fromhex("8000800040" + "02")}
         out += [DPTArray(f) for f in sorted(fills)]
     return out
 
@@ -277,7 +281,9 @@ def worker(si: int, ai: int, seed: int, thorough: bool) -> Part:
                                 part.viol(s, d, [list(spec), addr, [[pl(payload), ename, response]]], rank=(1, len(repr(payload)), str(ename)))
                             part.outcomes["violating" if viols else "same"] += 1
                 # histories of two telegrams to the same address: first without/with own entry, then with every same-shape entry
-                for p1 in alphabet[:3] + alphabet[7:10]:
+                # (first telegram: 3 binary values, 3 one-octet arrays, and for every longer length the all-ones array - a fully valid
+                #  structured value that a later partial update is merged into)
+                for p1 in alphabet[:3] + alphabet[7:10] + [a for a in alphabet if isinstance(a, DPTArray) and len(a.value) > 1 and set(a.value) == {0xFF}]:
                     for p2 in alphabet:
                         if type(p1) is not type(p2) or (isinstance(p1, DPTArray) and len(p1.value) != len(p2.value)):
                             continue
